@@ -126,6 +126,15 @@ func vpClockGap(max int) int
 func vpYAMLFile(path string, doc interface{})
 func vpWriteSetBegin()
 func vpSignalHUP()
+func vpFireTimers() int
+func vpTimerFires() int
+func vpHookBehaviour(kind int)
+func vpExecCount() int
+func vpExecPath(i int) string
+func vpExecArgs(i int) string
+func vpExecHasEnv(i int, kv string) bool
+func vpExecKilled(i int) bool
+func vpExecWaited(i int) bool
 func vpSettle()
 func vpAwait(ch chan bool) bool
 func vpWritesOnlyFresh() bool
